@@ -1690,6 +1690,11 @@ STAMP_CONSUMERS = (ST + "with_epoch", "utils::Modular::<WIDTH>::max", "utils::Mo
                    "ebr_impl::pointers::Tagged::<T>::with_high_tag")
 
 
+def _state_objs(ctx, term):
+    """the objects whose count word a term was computed from"""
+    return {show(x[2]) for x in subterms(term) if x[0] == "field" and x[1] == ctx.state_field}
+
+
 def _is_stamp(t):
     t = _uncast(strip(t))
     return isinstance(t, tuple) and t[0] == "call" and t[1] in STAMP_SOURCES
@@ -1766,7 +1771,12 @@ def rule_stamp_modular(ctx):
                     continue
                 if isinstance(e.term, tuple) and e.term[0] == "call" and e.term[1] == MODC[1]:
                     directed.add((e.body.name, e.bb))
-                writes = any(x.kind == "call" and x.target in WRITERS for x in p.events[i + 1:])
+                # (a write to the word the verdict was about: in the cascade the verdict is on the node and the
+                #  stamps written afterwards are its children's)
+                vobj = _state_objs(ctx, e.term)
+                writes = any(x.kind == "call" and x.target in WRITERS and
+                             (not vobj or not _state_objs(ctx, x.args[0]) or vobj & _state_objs(ctx, x.args[0]))
+                             for x in p.events[i + 1:])
                 sides.setdefault((e.body.name, e.bb), {}).setdefault(e.value, set()).add(writes)
                 r.paths += 1
         for key, sd in sorted(sides.items()):
